@@ -367,6 +367,12 @@ func main() {
 			kinds = append(kinds, "random")
 		}
 	}
+	// every third case runs with an offset retention configured (v2 commit requests); the corpus keeps its own setting
+	for i := range cases {
+		if kinds[i] != "corpus" && i%3 == 1 {
+			cases[i].RetentionMs = int64(1000 * (1 + i%50))
+		}
+	}
 	results := make([]obs, len(cases))
 	var wg sync.WaitGroup
 	sem := make(chan struct{}, *workers)
